@@ -699,4 +699,122 @@ theorem C19_regress_energy_avg_pool (c : Costs) (pl : Placement) :
 example : eKind "AveragePooling2D" = .avgPool := by decide
 example : eKind "GlobalAveragePooling2D" = .avgPool := by decide
 
+/-! ## operator entries (`op_cost`) — strengthening round 3 (seed C19-9)
+
+Every branch of `energy_estimate` prices an operator (BN divider / multiplier, merge operator, MAC
+multiplier) through one and the same unit cost `gate_factor × OP[type][mode](gate_bits)`
+(`unitCost`); what differs is the NUMBER of applications: `count` for a MAC layer and for batch
+normalisation, `(n − 1) × count` for an element-wise merge of `n` operands. -/
+
+/-- an element-wise merge of `n` operands of one shape performs `(n − 1) × (elements)` scalar
+    operations (the literal loop nest (extra operand, element)); `operation_count` reports the
+    per-operand slice `macMerge shape` (`C19_count_merge`). -/
+theorem C19_merge_nary_ops (n : ℕ) (shape : List ℕ) :
+    opsMergeNary n shape = (n - 1) * macMerge shape := by
+  simp [opsMergeNary, macMerge, mergeNaryNest_length]
+
+example : opsMergeNary 3 [4, 4, 3] = 96 ∧ macMerge [4, 4, 3] = 48 := by decide
+
+/-- merge op cost for EVERY operator type (fixed point, fp16, fp32) and mode: the operator's unit
+    cost, `(n − 1) × count` times; it is defined exactly when the unit cost is. -/
+theorem C19_entry_merge_unit (c : Costs) (l : ELayer) (u : OpUnit)
+    (hk : eKind l.className = .merge) (hu : l.multiplier = some u) :
+    opEnergy c l = (unitCost c u).map fun e => ((l.nInputs : ℚ) - 1) * (l.opCount : ℚ) * e :=
+  opEnergy_merge_unit c l u hk hu
+
+/-- **n-ary merges**: with the reported count being the per-operand slice, the op cost of an
+    Add / Multiply / Subtract of `n ≥ 1` operands is (the number of scalar operations the whole
+    merge performs) × (unit energy of the reported operator) — for every `n`, not only `n = 2`. -/
+theorem C19_entry_merge_nary (c : Costs) (l : ELayer) (u : OpUnit) (e : ℚ) (shape : List ℕ)
+    (hk : eKind l.className = .merge) (hu : l.multiplier = some u) (he : unitCost c u = some e)
+    (hn : 1 ≤ l.nInputs) (hc : l.opCount = macMerge shape) :
+    opEnergy c l = some ((opsMergeNary l.nInputs shape : ℚ) * e) := by
+  rw [opEnergy_merge_unit c l u hk hu, he, C19_merge_nary_ops, hc]
+  simp [Nat.cast_sub hn]
+
+/-- two operands: the count itself; one operand: nothing to combine. -/
+theorem C19_entry_merge_binary (c : Costs) (l : ELayer) (u : OpUnit) (e : ℚ)
+    (hk : eKind l.className = .merge) (hu : l.multiplier = some u) (he : unitCost c u = some e) :
+    (l.nInputs = 2 → opEnergy c l = some ((l.opCount : ℚ) * e)) ∧
+    (l.nInputs = 1 → opEnergy c l = some 0) := by
+  rw [opEnergy_merge_unit c l u hk hu, he]
+  constructor
+  · intro h
+    simp only [h, Option.map_some, Option.some.injEq]
+    norm_num
+  · intro h
+    simp [h]
+
+/-- every additional operand adds `count × unit energy` (linear in the number of operands). -/
+theorem C19_entry_merge_operand_step (c : Costs) (l : ELayer) (u : OpUnit) (e : ℚ)
+    (hk : eKind l.className = .merge) (hu : l.multiplier = some u) (he : unitCost c u = some e) :
+    ∃ v, opEnergy c l = some v ∧
+      opEnergy c { l with nInputs := l.nInputs + 1 } = some (v + (l.opCount : ℚ) * e) := by
+  refine ⟨((l.nInputs : ℚ) - 1) * (l.opCount : ℚ) * e, ?_, ?_⟩
+  · rw [opEnergy_merge_unit c l u hk hu, he]; rfl
+  · rw [opEnergy_merge_unit c { l with nInputs := l.nInputs + 1 } u hk hu, he]
+    simp
+    ring
+
+/-- the per-pair formula `count × unit energy` (the `(n − 1)` factor dropped) is NOT the op cost
+    of a merge of three or more operands whenever the layer does anything at all — the two
+    formulas agree exactly on the two-operand merges. -/
+theorem C19_entry_merge_not_per_pair (c : Costs) (l : ELayer) (u : OpUnit) (e : ℚ)
+    (hk : eKind l.className = .merge) (hu : l.multiplier = some u) (he : unitCost c u = some e)
+    (hn : 3 ≤ l.nInputs) (hcnt : 0 < l.opCount) (hpos : 0 < e) :
+    opEnergy c l ≠ some ((l.opCount : ℚ) * e) := by
+  rw [opEnergy_merge_unit c l u hk hu, he]
+  simp only [Option.map_some, ne_eq, Option.some.injEq]
+  have h1 : (3 : ℚ) ≤ (l.nInputs : ℚ) := by exact_mod_cast hn
+  have h2 : (0 : ℚ) < (l.opCount : ℚ) := by exact_mod_cast hcnt
+  have h3 : 0 < (l.opCount : ℚ) * e := mul_pos h2 hpos
+  intro h
+  nlinarith
+
+/-- a three-operand Add of 4×4×3 tensors with an 8-bit adder (the shape of seed C19-9's demo):
+    96 additions are charged, for every cost polynomial. -/
+def exampleAdd3Layer : ELayer :=
+  { className := "Add", isInput := false, isOutput := false,
+    inputs := [(48, 5), (48, 6), (48, 7)], nInputs := 3, outElems := 48, outBits := 8, opCount := 48,
+    bnSize := 0, bnBits := [], wElems := 0, wBits := 0, bias := none,
+    multiplier := some (OpUnit.mk 1 8 .add (QInfo.mk 8 false)),
+    accumulator := none, poolAccumulator := none, bnDivider := none, bnMultiplier := none }
+
+theorem C19_witness_merge_three_operands (c : Costs) :
+    opEnergy c exampleAdd3Layer = some (96 * max (c.fpmAdd 8) 0) := by
+  have hk : eKind exampleAdd3Layer.className = .merge := by decide
+  rw [opEnergy_merge_unit c _ (OpUnit.mk 1 8 .add (QInfo.mk 8 false)) hk rfl]
+  simp [unitCost, opType?, opCost, exampleAdd3Layer]
+  norm_num
+
+/-- batch normalisation: `count × (divider unit + multiplier unit)`; an absent operator (scale or
+    centre switched off) contributes nothing. -/
+theorem C19_entry_batchnorm (c : Costs) (l : ELayer) (d m : ℚ)
+    (hk : eKind l.className = .batchNorm)
+    (hd : optUnitCost c l.bnDivider = some d) (hm : optUnitCost c l.bnMultiplier = some m) :
+    opEnergy c l = some ((l.opCount : ℚ) * (d + m)) ∧ optUnitCost c none = some 0 := by
+  refine ⟨?_, rfl⟩
+  simp [opEnergy, hk, hd, hm]
+  ring
+
+/-- MAC layers, every operator / accumulator type: `count × (multiplier unit + add(accumulator))`. -/
+theorem C19_entry_mac_unit (c : Costs) (l : ELayer) (u : OpUnit) (a : QInfo) (t : OpType) (e1 e2 : ℚ)
+    (hk : eKind l.className = .mac) (hu : l.multiplier = some u) (ha : l.accumulator = some a)
+    (h1 : unitCost c u = some e1) (ht : opType? a = some t) (h2 : opCost c t .add a.bits = some e2) :
+    opEnergy c l = some ((l.opCount : ℚ) * (e1 + e2)) := by
+  simp [opEnergy, hk, hu, ha, h1, ht, h2]
+
+/-- the `op_cost` entry does not depend on the memory placement, `min_sram_size` or `rd_wr_on_io`
+    of the call: it is `opEnergy` of the layer. -/
+theorem C19_entry_op_placement_free (c : Costs) (pl pl' : Placement) (l : ELayer) (e e' : Entry)
+    (h : layerEntry c pl l = some e) (h' : layerEntry c pl' l = some e') :
+    e.opCost = e'.opCost ∧ opEnergy c l = some e.opCost := by
+  unfold layerEntry at h h'
+  cases ho : opEnergy c l with
+  | none => simp [ho] at h
+  | some v =>
+    simp [ho] at h h'
+    subst h; subst h'
+    simp
+
 end QKV.Props.C19
